@@ -7,7 +7,7 @@ from fractions import Fraction
 
 from optilint.expr import Poly
 from .C20_interp import (Int, Scalar, Arr, Str, Key, EnumVal, UserClass, NTInst, Instance, ListV, DictV, DictView, RangeV, SliceV, Func, Bound,
-                         Builtin, Method, ModuleV, FileObj, Opaque, Poison, Partial, Env, Group, MISSING, NODEFAULT, Undecidable, ProgramError,
+                         Builtin, Method, ModuleV, LibModule, FileObj, Opaque, Poison, Partial, Env, Group, MISSING, NODEFAULT, Undecidable, ProgramError,
                          ReturnSig, BreakSig, ContinueSig, PC, PS, ZERO, ONE, psubst, pconst, const_of, new_oid)
 from . import C20_text as T
 from .C20_ops import OpsMixin
@@ -16,10 +16,12 @@ UNROLL = 8
 
 
 class Interp(OpsMixin):
-    def __init__(self, tree: ast.Module, scope_of=None, modname="module"):
+    def __init__(self, tree: ast.Module, scope_of=None, modname="module", module_source=None):
         self.tree = tree
         self.scope_of = scope_of or (lambda node: None)
         self.modname = modname
+        self.module_source = module_source      # dotted name -> ast.Module of a module of the analysed library, or None
+        self.lib_modules = {}                   # private helper modules that were loaded: dotted name -> LibModule
         self.lo = {}                # size symbol -> lower bound (0 | 1)
         self.free = set()           # symbols that are inputs of one call (not independent sizes)
         self.eqs = {}               # symbol -> Poly (facts learnt on a path)
@@ -238,6 +240,81 @@ class Interp(OpsMixin):
                 for name in _stored_names(st):
                     g.vars[name] = Opaque(f"module-level `{name}` (not evaluated: {getattr(e, 'msg', e)})")
 
+    # ------------------------------------------------------------------ private helper modules of the library
+    def is_private_helper_module(self, name):
+        """`optimism/_xxx.py`, `optimism/sub/_xxx.py`, modules of a private sub-package: code of the library that no user imports; a
+        maintainer moves helpers there, so such a module is interpreted like the module under analysis (same-module helpers).  Public
+        modules of the library and everything outside its package stay un-interpreted (Opaque)."""
+        if not name or self.module_source is None:
+            return False
+        parts = name.split(".")
+        top = self.modname.split(".")[0]
+        if len(parts) < 2 or parts[0] != top or name == self.modname:
+            return False
+        return any(p.startswith("_") and not p.startswith("__") for p in parts[1:])
+
+    def lib_module(self, name):
+        """the LibModule of a private helper module (loaded on first use), None when `name` is not one"""
+        if name in self.lib_modules:
+            return self.lib_modules[name]
+        if not self.is_private_helper_module(name):
+            return None
+        tree = self.module_source(name)
+        if tree is None:
+            return None
+        env = Env()
+        env.modname, env.is_lib = name, True
+        m = self.lib_modules[name] = LibModule(name, env)      # registered first: an import cycle sees the partially loaded module, as in Python
+        saved = self.stack
+        self.stack = []
+        try:
+            for st in tree.body:
+                try:
+                    self.exec_stmt(st, env)
+                except (Undecidable, ProgramError, ReturnSig, BreakSig, ContinueSig) as e:
+                    for nm in _stored_names(st):
+                        env.vars[nm] = Opaque(f"module-level `{nm}` of {name} (not evaluated: {getattr(e, 'msg', e)})")
+        finally:
+            self.stack = saved
+        return m
+
+    def module_of_env(self, env):
+        """dotted name of the module whose code runs in `env`"""
+        e = env
+        while e.parent is not None:
+            e = e.parent
+        return getattr(e, "modname", None) or self.modname
+
+    def in_lib_module(self, env):
+        e = env
+        while e.parent is not None:
+            e = e.parent
+        return getattr(e, "is_lib", False)
+
+    def resolve_import_from(self, st, alias, env):
+        """`from <module> import <name>` where <module> or <module>.<name> is a private helper module of the library (absolute or relative
+        spelling) -> its value, else MISSING (the caller keeps the old treatment)"""
+        if self.module_source is None:
+            return MISSING
+        mod = st.module or ""
+        if st.level:
+            here = self.module_of_env(env).split(".")
+            if st.level > len(here):
+                return MISSING
+            base = here[:len(here) - st.level]
+            mod = ".".join(base + ([mod] if mod else []))
+        if not mod:
+            return MISSING
+        lm = self.lib_module(mod)
+        if lm is not None:
+            v = lm.env.vars.get(alias.name, MISSING)
+            if v is not MISSING:
+                return v
+        sub = self.lib_module(mod + "." + alias.name)
+        if sub is not None:
+            return sub
+        return MISSING
+
     # ------------------------------------------------------------------ mutation log
     def mutate(self, kind, target, detail, node):
         self.log.append((kind, target, detail, node, self.stack[-1] if self.stack else None))
@@ -348,10 +425,12 @@ class Interp(OpsMixin):
             env.vars[st.name] = self.make_class(st, env)
         elif isinstance(st, ast.Import):
             for a in st.names:
-                env.vars[a.asname or a.name.split(".")[0]] = ModuleV(a.name if a.asname else a.name.split(".")[0])
+                lm = self.lib_module(a.name) if a.asname else None
+                env.vars[a.asname or a.name.split(".")[0]] = lm if lm is not None else ModuleV(a.name if a.asname else a.name.split(".")[0])
         elif isinstance(st, ast.ImportFrom):
             for a in st.names:
-                env.vars[a.asname or a.name] = self.imported(st.module or "", a.name)
+                v = self.resolve_import_from(st, a, env)
+                env.vars[a.asname or a.name] = v if v is not MISSING else self.imported(st.module or "", a.name)
         elif isinstance(st, ast.Delete):
             for t in st.targets:
                 if isinstance(t, ast.Name):
